@@ -45,6 +45,10 @@ def run_case(case):
             step = {"op": "pull", "path": "/f" + case["seed"].replace(":", "_"), "size": size, "seed": case["seed"], "rec": rng.choice(["64k", "one", "random", "alt", "zeros"]),
                     "split": rng.choice(["whole", "random", "random", "bytes1"]) if size <= 300 else rng.choice(["whole", "random"]),
                     "dest": rng.choice(["bytesio", "path"]), "cb": rng.choice([None, "ok", "raise", "raisebase"])}
+            num = int(case["seed"].split(":")[-1].strip("abcdefghijklmnopqrstuvwxyz") or 0)
+            if num % 6 == 1:
+                step["fill"] = ["zeros", "zerotail", "holes"][(num // 6) % 3]      # sparse files / zeroed images: long runs of NUL bytes, also at the very end
+                stats["files_with_long_zero_runs"] = 1
             if step["cb"] and size and int(case["seed"].split(":")[-1].strip("abcdefghijklmnopqrstuvwxyz") or 0) % 7 == 3:
                 step["stat_size"] = [0, size + 1, 1][size % 3]      # the STAT of a virtual or growing file does not give the number of bytes RECV delivers
                 stats["stat_size_differs"] = 1
